@@ -112,33 +112,34 @@ Proof.
       destruct (o_err o) eqn:Eerr; (destruct (memZ all v); [|destruct (lookupB s2l (to_lower t))]);
       cbn -[tags_add to_lower Z.ltb Z.eqb]; rewrite ?Eerr; cbn -[tags_add to_lower Z.ltb Z.eqb];
       rewrite ?map_app; reflexivity
-  | _ => idtac
+  | _ =>
+      (* the translation: one tactic expression, so that nothing runs after the fall-back branch closed the goal *)
+      unfold Registry.register, register; cbn [r_all r_l2s r_s2l r_tags r_as r_errdev r_colors]; cbv zeta;
+      match goal with |- context [fold_left ?F all ?i] =>
+        rewrite (find_loop v (Some dup_value_msg) F)
+          by (intros; cbv beta iota zeta; try reflexivity;
+              repeat (gen_split; gen_inj; try reflexivity; try discriminate; try lia)) end;
+      destruct (memZ all v) eqn:Ev; cbv beta iota zeta;
+      [ cbn [view_reg]; reflexivity | ];
+      destruct (lookupB s2l (to_lower t)) as [l|] eqn:Et;
+      [ cbn [view_reg]; reflexivity | ];
+      (* a fresh value and title: every map write is an append *)
+      cbn [forallb snd] in Ht; rewrite !andb_true_iff in Ht; destruct Ht as (T0 & T1 & T2 & T3 & T4 & T5 & _);
+      rewrite (set_fresh l2s) by (eapply fresh_lookup; eassumption);
+      rewrite (setB_fresh s2l) by exact Et;
+      rewrite ?(set_fresh colors) by (eapply fresh_lookup; eassumption);
+      rewrite ?(set_fresh as_) by (eapply fresh_lookup; eassumption);
+      rewrite ?(set_fresh errm) by (eapply errdev_fresh; eassumption);
+      unfold tags_add;
+      match goal with |- context [go_loop _ ?F _] =>
+        rewrite (tag_loop v (o_tags o) F)
+          by (first [ eapply fresh_lookup; eassumption
+                    | intros; cbv beta iota zeta; try reflexivity;
+                      repeat (gen_split; gen_inj; try reflexivity; try discriminate; try lia) ]) end;
+      cbn [view_reg code_of fst snd]; change lv_max with 12;
+      destruct (o_clr o =? -1); destruct (o_bg o =? -1); destruct (o_treat o <? 12); destruct (o_err o);
+      cbn [negb]; rewrite ?map_app; reflexivity
   end.
-  unfold Registry.register, register. cbn [r_all r_l2s r_s2l r_tags r_as r_errdev r_colors]. cbv zeta.
-  match goal with |- context [fold_left ?F all ?i] =>
-    rewrite (find_loop v (Some dup_value_msg) F)
-      by (intros; cbv beta iota zeta; try reflexivity;
-          repeat (gen_split; gen_inj; try reflexivity; try discriminate; try lia)) end.
-  destruct (memZ all v) eqn:Ev; cbv beta iota zeta.
-  { cbn [view_reg]. reflexivity. }
-  destruct (lookupB s2l (to_lower t)) as [l|] eqn:Et.
-  { cbn [view_reg]. reflexivity. }
-  (* a fresh value and title: every map write is an append *)
-  cbn [forallb snd] in Ht. rewrite !andb_true_iff in Ht. destruct Ht as (T0 & T1 & T2 & T3 & T4 & T5 & _).
-  rewrite (set_fresh l2s) by (eapply fresh_lookup; eassumption).
-  rewrite (setB_fresh s2l) by exact Et.
-  rewrite ?(set_fresh colors) by (eapply fresh_lookup; eassumption).
-  rewrite ?(set_fresh as_) by (eapply fresh_lookup; eassumption).
-  rewrite ?(set_fresh errm) by (eapply errdev_fresh; eassumption).
-  unfold tags_add.
-  match goal with |- context [go_loop _ ?F _] =>
-    rewrite (tag_loop v (o_tags o) F)
-      by (first [ eapply fresh_lookup; eassumption
-                | intros; cbv beta iota zeta; try reflexivity;
-                  repeat (gen_split; gen_inj; try reflexivity; try discriminate; try lia) ]) end.
-  cbn [view_reg code_of fst snd]. change lv_max with 12.
-  destruct (o_clr o =? -1); destruct (o_bg o =? -1); destruct (o_treat o <? 12); destruct (o_err o);
-    cbn [negb]; rewrite ?map_app; reflexivity.
 Qed.
 
 (* the well-formedness holds for the tables of the source and is preserved by every registration *)
